@@ -181,7 +181,15 @@ def run_case(case: dict) -> dict:
             if index > 0 and points[index - 1]["syscall"] in ("write", "pwrite64", "writev"):
                 prev = points[index - 1]
                 written = int(prev["ret"]) if prev["ret"].isdigit() else 0
-                target = find_target(state, prev["target"])
+                # the crashed run uses other uuid names than the reference run: take the file that *this*
+                # run's write #when went to from this run's own trace (never guess by modification time)
+                own_points, _ = crash_points(log, str(state))
+                own = [p for p in own_points if p["syscall"] == prev["syscall"] and p["when"] == prev["when"]]
+                target = (state / own[0]["target"].lstrip("/")) if own and own[0]["target"] else None
+                if target is not None and not target.is_file():
+                    target = None
+                if target is None:
+                    obs["torn_target_not_identified"] += 1
                 if target is not None and written > 1:
                     size_after = target.stat().st_size
                     size_before = max(0, size_after - written)
